@@ -24,6 +24,7 @@ class Program:
         self.logger = logging.getLogger("x816")
         self.dump_symbols = dump_symbols
         self.parser = parser or MZParser(self.resolver)
+        self.label_pass_addresses: list[int] = []
 
     def get_physical_address(self, logical_address: int) -> int:
         physical_address = self.resolver.get_bus().get_address(logical_address).physical
@@ -47,8 +48,10 @@ class Program:
         self.resolver.last_used_scope = 0
 
         previous_pc = self.resolver.reloc_address
+        self.label_pass_addresses = []
 
         for node in program_nodes:
+            self.label_pass_addresses.append(previous_pc.logical_value)
             if isinstance(node, SymbolNode):
                 continue
             previous_pc = node.pc_after(previous_pc)
@@ -65,7 +68,14 @@ class Program:
     def emit(self, program: list[NodeProtocol], writer: Writer) -> None:
         current_block = b""
         current_block_addr = self.resolver.pc
-        for node in program:
+        for index, node in enumerate(program):
+            if index < len(self.label_pass_addresses):
+                label_pass_address = self.label_pass_addresses[index]
+                if label_pass_address != self.resolver.reloc_address.logical_value:
+                    raise RuntimeError(
+                        f"Phase error: {node} was placed at 0x{label_pass_address:06x} while labels were resolved "
+                        f"but is emitted at 0x{self.resolver.reloc_address.logical_value:06x}."
+                    )
             node_bytes = node.emit(self.resolver.reloc_address)
 
             if node_bytes:
